@@ -28,7 +28,7 @@ ASSUMPTIONS = c03.ASSUMPTIONS + [
 ]
 REQUIRED = ["answered_true", "answered_false", "nc_involved_true", "acl_with_shadow",
             "acl_without_shadow", "acl_attribution_not_adjacent", "standard_pair", "switched_pair", "mutated_pair", "acl_standard",
-            "acl_switched"]
+            "acl_switched", "acl_mixed_items", "acl_foreign_limit"]
 LONG_SUB = [1, 2, 4, 5, 3, 9]  # two independent (cover, covered) pairs + two more: longer lists
 SKIP_ACL = [None, ["nc_wildcard"], ["addrgroup", "nc_wildcard"]]
 
@@ -165,6 +165,13 @@ def acl_entries(seed):
     ]
 
 
+def c03_flat(acl):
+    out = []
+    for o in acl.items:
+        out.extend(c03_flat(o) if type(o).__name__ == "AceGroup" else [o])
+    return out
+
+
 def _spec(rules, lines, skip):
     """Expected report from the exact relation: {top line: [bottom lines]}."""
     nc_skip = bool(skip and "nc_wildcard" in skip)
@@ -190,14 +197,44 @@ def _check_acl(platform, texts, skip, ctx, rules=None, distinct=True, acl_type="
     ctx.ev()
     case = dict(kind="acl", platform=platform, lines=list(texts), skip=skip, acl_type=acl_type, cfg=cfg)
     head = f"ip access-list {acl_type} A" if platform == "ios" else "ip access-list A"
-    acl = Acl(head + "\n" + "\n".join(" " + t for t in texts), platform=platform, **(cfg or {}))
-    lines = [o.line for o in acl.items]
+    build = (cfg or {}).get("build")
+    if build == "mixed_items":
+        # the ACL built from a MIXTURE: strings, an explicit AceGroup object (no group_by), an
+        # exported dictionary, an Ace object - the report looks inside the block all the same
+        from cisco_acl import Ace, AceGroup
+
+        items = []
+        k = 0
+        while k < len(texts):
+            form = k % 4
+            if form == 1 and k + 1 < len(texts):
+                items.append(AceGroup(items=[texts[k], texts[k + 1]], platform=platform))
+                k += 2
+                continue
+            items.append(texts[k] if form in (0, 1) else Ace(texts[k], platform=platform).data()
+                         if form == 2 else Ace(texts[k], platform=platform))
+            k += 1
+        acl = Acl(name="A", platform=platform, items=items)
+        ctx.out("acl_mixed_items")
+    elif build == "foreign_limit":
+        # entries inserted as objects that were created under a higher max_ncwb than the ACL's
+        from cisco_acl import Ace
+
+        acl = Acl(name="A", platform=platform, max_ncwb=0)
+        for t in texts:
+            acl.append(Ace(t, platform=platform, max_ncwb=16))
+        ctx.out("acl_foreign_limit")
+    else:
+        acl = Acl(head + "\n" + "\n".join(" " + t for t in texts), platform=platform, **(cfg or {}))
+    lines = [o.line for o in c03_flat(acl)]
     if len(lines) != len(texts) or acl.type != acl_type:
         ctx.viol("harness:acl_not_built_as_described", case, lines, texts)
         return
     if rules is None:
         rules = [Reader(platform).read_line(ln, acl_type) for ln in texts]
     text_before, ids_before = acl.line, [o.uuid for o in acl.items]
+    if build:
+        cfg = None
     try:
         got = acl.shading(skip)
         got_list = acl.shadow_of(skip)
@@ -255,6 +292,11 @@ def _acls(unit, ctx):
             idx = (first,) + combo
             for skip in SKIP_ACL:
                 _check_acl(plat, [texts[i] for i in idx], skip, ctx, [rules[i] for i in idx])
+            if 1 <= n <= 2:
+                _check_acl(plat, [texts[i] for i in idx], None, ctx, [rules[i] for i in idx],
+                           cfg=dict(build="foreign_limit"))
+                _check_acl(plat, [texts[i] for i in idx], None, ctx, [rules[i] for i in idx],
+                           cfg=dict(build="mixed_items"))
     ctx.sample("acl", dict(platform=plat, lines=[texts[i] for i in idx]))
 
 
@@ -269,6 +311,9 @@ def _acls_long(unit, ctx):
         for combo in permutations(rest, n):
             idx = (unit["first"],) + combo
             _check_acl(plat, [texts[i] for i in idx], None, ctx, [rules[i] for i in idx])
+            if n == 3:
+                _check_acl(plat, [texts[i] for i in idx], None, ctx, [rules[i] for i in idx],
+                           cfg=dict(build="mixed_items"))
     ctx.sample("acl_long", dict(platform=plat, lines=[texts[i] for i in idx]))
 
 
